@@ -490,7 +490,7 @@ static void check_reference(tstate_t *s) {
   rc_table_t *t = &s->rt;
   size_t i, b, first;
   uint64_t pos;
-  size_t thr_hits = 0;
+  size_t near_c = 0, near_f = 0;
 
   s->rt_ok = rc_table_decode(s->file, s->fsize, t) == 0;
   vh_count("c16_reference_decodes", 1);
@@ -579,7 +579,7 @@ static void check_reference(tstate_t *s) {
         VIOL("compression-type-unexpected", "data block %zu stored compressed: %llu bytes for %llu raw saves less than 12.5%%", b,
              (unsigned long long)bi->size, (unsigned long long)raw);
       s->ncomp++;
-      if (bi->size * 8 > raw * 6) thr_hits++;
+      if (bi->size * 8 > raw * 6) near_c++;          /* saved 12.5..25 % */
     } else if (tc->o.snappy) {
       size_t bound = 0, zl;
       uint8_t *z;
@@ -591,7 +591,7 @@ static void check_reference(tstate_t *s) {
         VIOL("compression-type-unexpected", "data block %zu stored raw (%llu bytes) although snappy_encode shrinks it to %zu (>= 12.5%% saved)", b,
              (unsigned long long)raw, zl);
       s->nfallback++;
-      if (zl < raw) thr_hits++;
+      if (zl * 20 <= raw * 19) near_f++;             /* saved 5..12.5 %: just not enough */
     } else {
       s->nplain++;
     }
@@ -624,7 +624,8 @@ static void check_reference(tstate_t *s) {
   vh_count("c16_blocks_compressed", (uint64_t)s->ncomp);
   vh_count("c16_blocks_fallback_raw", (uint64_t)s->nfallback);
   vh_count("c16_blocks_uncompressed", (uint64_t)s->nplain);
-  vh_count("c16_blocks_near_12_5_threshold", thr_hits);
+  vh_count("c16_blocks_compressed_saving_12_5_to_25pct", near_c);
+  vh_count("c16_blocks_fallback_saving_5_to_12_5pct", near_f);
 
   /* (d) reference + real filter probe on every present key */
   if (t->filter != NULL && t->nentries == tc->n) {
